@@ -161,6 +161,7 @@ func cmdCrash(args []string) {
 	par := fs.Int("par", 16, "parallel experiments")
 	wal := fs.Bool("wal", false, "WAL journal mode")
 	offset := fs.Int("offset", 0, "stride offset (seed)")
+	edges := fs.Bool("edges", false, "always include the first three and the last four events of every block (BEGIN .. COMMIT)")
 	span := fs.Int("span", 0, "resume only this many blocks past the experiment's height (0 = to the tip)")
 	fs.Parse(args)
 	if *scn == "" || *out == "" || *work == "" {
@@ -203,7 +204,7 @@ func cmdCrash(args []string) {
 	}
 	copyAt := map[uint32]bool{}
 	for _, h := range content {
-		if full[h] || *stride > 0 {
+		if full[h] || *stride > 0 || *edges {
 			copyAt[h-1] = true
 		}
 	}
@@ -264,7 +265,7 @@ func cmdCrash(args []string) {
 	var exps []exp
 	// count events per block
 	for _, h := range content {
-		if !(full[h] || *stride > 0) {
+		if !(full[h] || *stride > 0 || *edges) {
 			continue
 		}
 		base := ref.dbAt[h-1]
@@ -288,7 +289,7 @@ func cmdCrash(args []string) {
 		emit(map[string]interface{}{"ev": "BlockEvents", "h": h, "K": K, "writesOut": o.rep.WritesOut, "begins": o.rep.Begins})
 		os.RemoveAll(filepath.Dir(tmp))
 		for k := 0; k < K; k++ {
-			if full[h] || (*stride > 0 && (k+*offset)%*stride == 0) {
+			if full[h] || (*stride > 0 && (k+*offset)%*stride == 0) || (*edges && (k < 3 || k >= K-4)) {
 				exps = append(exps, exp{h: h, k: k, K: K})
 			}
 		}
